@@ -31,6 +31,7 @@ LEVEL_NOTE = ("Trusted: Lean kernel (axioms propext, Classical.choice, Quot.soun
 LEAN_TARGETS = ["QclibModel.Props.C05", "QclibModel.Props.C05Majority"]
 THEOREMS = ["Qclib.C05_toffoli_relphase", "Qclib.C05_halves", "Qclib.C05_vchain", "Qclib.C05_vchain_relphase",
             "Qclib.C05_linear", "Qclib.C05_ctrl_state", "Qclib.C05_majority", "Qclib.C05_majority_sizes",
+            "Qclib.C05_majority_src",
     "Qclib.C05_vchain_action_only",
     "Qclib.C05_action_only_bracket",
     "Qclib.C05_sp_comm",
@@ -40,6 +41,9 @@ TRUSTED = [
     "matU / applyMcu of Sem/Denote.lean (validated numerically each run)",
     "float: pi/4. is compared to the model's parameter to 1e-9; the theorem uses the exact angle (cos,sin(pi/8))",
     "tools/flatten.py expands qclib composites and keeps qiskit library gates as primitives",
+    "tools/py2lean.py translation of the n_min / n_controls statements of majority.operate into Gen/Majority.lean "
+    "(C05_majority_src proves it equal to the hand model for every n; kept honest by the second tie: the generated "
+    "definition is run by the driver and diffed against the Python original for n <= 40 / 130)",
 ]
 ASSUMPTIONS = ["exact arithmetic in the theorems; implementation compared to 1e-7",
                "register wires pairwise distinct (hypothesis VLayout of the theorems; true of every QuantumCircuit)"]
@@ -68,6 +72,14 @@ UNREACHED_JUSTIFIED = {
 TOL = 1e-7
 DENSE_OP_MAX = 9         # full Operator up to this many qubits everywhere
 DENSE_SV_MAX = 11        # random dense Statevector up to this many qubits
+
+
+def generate(ctx):
+    """Models re-translated from the source on every run: the subset-size computation of the majority gate
+    (props/c05_majority.py -> lean/QclibModel/Gen/Majority.lean).  A translator refusal raises (broken obligation)."""
+    if MAJ is None:
+        raise RuntimeError("props/c05_majority.py is missing: the majority source tie cannot be regenerated")
+    return MAJ.generate(ctx)
 
 
 # ------------------------------------------------------------------------------------------------
